@@ -22,7 +22,9 @@ C = lambda v: ["c", v]  # noqa: E731
 S = lambda n: ["s", n]  # noqa: E731
 
 
-def program():
+def program(stale_refs=False):
+    """stale_refs: the tree still mentions the deprecated names OLDT / OLDN in conditions without defining
+    them (they are undefined names there: n / their own text); loading through them must work all the same."""
     ents = [
         mk_config("G", "bool", prompt=Y, defaults=[{"v": ["y"], "c": Y}]),
         mk_config("T", "bool", prompt=Y, defaults=[{"v": ["n"], "c": Y}]),
@@ -42,6 +44,12 @@ def program():
         mk_config("OBS", "bool", defaults=[{"v": ["y"], "c": ["=", S("N"), C("7")]}]),
     ]
     order = [["s", "G"], ["s", "T"], ["s", "N"], ["s", "S"], ["s", "H"], ["s", "D"], ["ch", "<choice 1>"], ["s", "M1"], ["s", "M2"], ["s", "OBS"]]
+    if stale_refs:
+        ents += [
+            mk_config("OBS2", "bool", defaults=[{"v": ["y"], "c": ["!", S("OLDT")]}]),
+            mk_config("OBS3", "bool", prompt=Y, dep=["!", ["=", S("OLDN"), C("7")]], defaults=[{"v": ["y"], "c": S("old_lower")}]),
+        ]
+        order += [["s", "OBS2"], ["s", "OBS3"]]
     return {"prog": ents, "ord": order}
 
 
@@ -67,7 +75,7 @@ def tables_for(tier):
     return TABLES + [t for t in extra if t not in TABLES]
 
 
-TYPES = {"G": "bool", "T": "bool", "N": "int", "S": "string", "H": "hex", "D": "bool", "M1": "bool", "M2": "bool", "OBS": "bool"}
+TYPES = {"G": "bool", "T": "bool", "N": "int", "S": "string", "H": "hex", "D": "bool", "M1": "bool", "M2": "bool", "OBS": "bool", "OBS2": "bool", "OBS3": "bool"}
 
 
 def line(n, v, unset=False, d=False, t=None):
@@ -156,13 +164,15 @@ def load_vals(run, text, ren_files, file_text, names, load_deprecated=False):
 def main(run):
     tier = run.tier
     rng = random.Random(run.seed)
-    item = program()
-    text = ktree.render(item["prog"])
-    names = ktree.sym_names(item["prog"])
     progs = []
     total = 0
-    all_tables = tables_for(tier)
-    for ren_files in all_tables:
+    base_tables = tables_for(tier)
+    all_tables = []
+    for stale, ren_files in [(False, t) for t in base_tables] + [(True, t) for t in base_tables]:
+        item = program(stale)
+        text = ktree.render(item["prog"])
+        names = ktree.sym_names(item["prog"])
+        all_tables.append(ren_files)
         tab_lines = [ln for f in ren_files for ln in f]
         uni = universe(tab_lines)
         files = []
@@ -222,7 +232,7 @@ def main(run):
                 )
             cases.append(case)
             total += 1
-        progs.append({"prog": item["prog"], "ord": item["ord"], "renames": tab_lines, "cases": cases, "files_text": None})
+        progs.append({"prog": item["prog"], "ord": item["ord"], "renames": tab_lines, "cases": cases, "files_text": text})
     run.add("evaluations", total)
     strings = set()
     ktree.strings_of(item["prog"], strings)
@@ -252,7 +262,7 @@ def main(run):
         bad.add((t, i))
         run.report(
             "%s: %s vs %s for file %r with renames %s" % (tag, a, b, text_of([dict(ln, t=None) for ln in case["file"]]), all_tables[t - 1]),
-            {"kconfig": text, "renames": all_tables[t - 1], "file": case["file"], "clause": tag, "expected": a, "observed": b},
+            {"kconfig": progs[t - 1]["files_text"], "renames": all_tables[t - 1], "file": case["file"], "clause": tag, "expected": a, "observed": b},
             {tag},
         )
     run.cov["traces_validated_against_impl"] = total - len(bad)
@@ -260,7 +270,7 @@ def main(run):
     run.cov["distinct_nontrivial"] = sum(1 for p in progs for c in p["cases"] if any(ln["n"] not in TYPES for ln in c["file"]))
     run.cov["exhaustive"] = tier == "thorough"
     run.cov["rule"] = (
-        "one program (bool/int/string/hex options, a dependent option, a choice) x 3 rename tables (several files, duplicate old name "
+        "one program (bool/int/string/hex options, a dependent option, a choice), with and without stale mentions of the deprecated names in conditions, x 6 rename tables (several files, duplicate old name "
         "with last-wins, inversions incl. on a non-bool, a lower-case old name, an alias of a choice member, an alias of an undefined "
         "option) x every ordered selection of <= 3 lines from a universe mixing old and new names, valid and invalid values, "
         "default-marked alias lines and unknown names; every 5th file carries a contradicting deprecated block; non-trivial = the "
